@@ -355,15 +355,18 @@ theorem setup_predefined : PTab.setup.valid 0 = true ∧ PTab.setup.valid 1 = tr
   decide
 
 /-- … and deleting them is accepted and changes nothing: they are permanent -/
-theorem predefined_permanent (t : PTab) (h : Int) (hh : h < 3) : t.delete h = (t, true) := by
-  simp [PTab.delete, hh]
+theorem predefined_permanent (t : PTab) (h : Int) (h0 : 0 ≤ h) (hh : h < 3) : t.delete h = (t, true) := by
+  have : ¬ h < 0 := by omega
+  simp [PTab.delete, hh, this]
 
 /-- a refused delete (invalid or already deleted handle) changes nothing -/
 theorem delete_refused_frame (t : PTab) (h : Int) (hr : (t.delete h).2 = false) : (t.delete h).1 = t := by
   unfold PTab.delete at hr ⊢
+  by_cases hneg : h < 0
+  · simp [hneg]
   by_cases h3 : h < 3
-  · simp [h3]
-  · simp only [h3, ↓reduceIte] at hr ⊢
+  · simp [h3, hneg]
+  · simp only [hneg, h3, ↓reduceIte] at hr ⊢
     by_cases hv : t.valid h = true
     · simp only [hv, ↓reduceIte] at hr ⊢
       cases hg : t.get? h.toNat with
